@@ -39,8 +39,8 @@ pub fn programs(tier: Tier) -> ProgramSet {
     let mut styles = refsem::style_strings();
     styles.sort();
     let c = AlphaCfg {
-        pool: if tier == Tier::Quick { vec!["x", "Xy", "é", "BbCc"] } else { pool_full() },
-        pool_b: vec!["xy", "XY"],
+        pool: if tier == Tier::Quick { vec!["x", "Xy", "é", "BbCc"] } else { let mut p = pool_full(); for e in [" x", "y ", "", "z\n"] { if !p.contains(&e) { p.push(e); } } p },
+        pool_b: vec!["xy", "XY", " x", "y ", ""],
         kinds: true,
         disabled: true,
         default: false,
